@@ -286,6 +286,10 @@ class SchemaBuilder(
     ) -> Sequence[Property]:
         raise NotImplementedError
 
+    def _omittable(self, properties: Sequence[Property]) -> Collection[str]:
+        """Names of the properties which can be absent whatever the other ones are"""
+        return ()
+
     def object(self, tp: AnyType, fields: Sequence[ObjectField]) -> JsonSchema:
         cls = get_origin_or_type(tp)
         properties = sort_by_order(
@@ -318,11 +322,14 @@ class SchemaBuilder(
                 )
         aliases = {f.name: AliasedStr(f.alias) for f in fields}
         alias_by_names = aliases.__getitem__
-        # fields skipped for this operation can neither require nor be required
+        # fields skipped for this operation can neither require nor be required,
+        # and the presence of a property which can be omitted cannot be promised
+        omittable = self._omittable(properties)
         dependent_required = {
-            f: [req for req in reqs if req in aliases]
+            f: [req for req in reqs if req in aliases and req not in omittable]
             for f, reqs in get_dependent_required(cls).items()
-            if f in aliases and any(req in aliases for req in reqs)
+            if f in aliases
+            and any(req in aliases and req not in omittable for req in reqs)
         }
         result = []
         if discriminator_parent := get_discriminated_parent(cls):
@@ -498,6 +505,11 @@ class SerializationSchemaBuilder(
     SerializationObjectVisitor[JsonSchema],
 ):
     RefsExtractor = SerializationRefsExtractor
+
+    def _omittable(self, properties: Sequence[Property]) -> Collection[str]:
+        # serialization can omit a property (Undefined, None with exclude_none,
+        # etc.) even when the properties depending on it are there
+        return {p.name for p in properties if not p.required}
 
     @staticmethod
     def _field_required(field: ObjectField):
